@@ -1215,9 +1215,16 @@ func representableConst(c constant.Value, t reflect.Type) bool {
 		}
 		switch t.Kind() {
 		case reflect.Int, reflect.Int8, reflect.Int16, reflect.Int32, reflect.Int64:
-			if _, ok := constant.Int64Val(x); !ok {
+			v, ok := constant.Int64Val(x)
+			if !ok {
 				return false
 			}
+			// A signed type of n bits holds -2^(n-1) .. 2^(n-1)-1.
+			if n := bitlen[t.Kind()]; n < 64 {
+				lim := int64(1) << (n - 1)
+				return -lim <= v && v < lim
+			}
+			return true
 		case reflect.Uint, reflect.Uint8, reflect.Uint16, reflect.Uint32, reflect.Uint64, reflect.Uintptr:
 			if _, ok := constant.Uint64Val(x); !ok {
 				return false
